@@ -81,7 +81,9 @@ class ScopeGen:
             ns = r.choice(NS)
             return [G.st_expr({"k": "within", "ns": ns, "body": self.block(d - 1, ns)})]
         if k == "callparams":
-            return [G.st_expr({"k": "callw", "arg": G.arr(self.val(), self.val()), "body": [{"k": "params", "names": [r.choice(LOCALS), "_p2"]}] + body})]
+            # fewer arguments than names: the missing names are still bound (to nil) in the callee's scope
+            args = [self.val() for _ in range(r.choice([0, 1, 2, 2]))]
+            return [G.st_expr({"k": "callw", "arg": G.arr(*args), "body": [{"k": "params", "names": [r.choice(LOCALS), r.choice(LOCALS + ["_p2"])]}] + body})]
         if k == "switch":
             return [G.st_expr({"k": "switch", "v": G.num(1), "body": [{"k": "case", "x": G.num(1), "body": body}]})]
         if k == "try":
@@ -119,6 +121,8 @@ def systematic():
     P(G.assign("gw", n(0)), {"k": "while", "c": [G.st_expr(G.binop("<", v("gw"), n(2)))], "body": [probe("_s"), G.assign("_s", n(5)), G.assign("gw", G.binop("+", v("gw"), n(1)))]}, probe("_s"))
     # params / private bind in the current scope
     P({"k": "private", "name": "_a", "x": n(1)}, G.st_expr({"k": "callw", "arg": A(n(7), n(8)), "body": [{"k": "params", "names": ["_a", "_b"]}, rd("_a"), rd("_b")]}), rd("_a"), probe("_b"))
+    P({"k": "private", "name": "_b", "x": n(1)}, G.st_expr({"k": "callw", "arg": A(n(7)), "body": [{"k": "params", "names": ["_a", "_B"]}, probe("_b"), G.assign("_b", n(5)), rd("_b")]}), rd("_b"))
+    P({"k": "private", "name": "_a", "x": n(1)}, G.st_expr({"k": "callw", "arg": A(), "body": [{"k": "params", "names": ["_A", "_b"]}, rd("_a"), G.assign("_a", n(5))]}), rd("_a"))
     P({"k": "private", "name": "_a", "x": n(1)}, G.st_expr(G.call([{"k": "privates", "name": "_a"}, probe("_a"), G.assign("_a", n(2)), rd("_a")])), rd("_a"))
     # spawn sees none of the starter's locals
     P({"k": "private", "name": "_a", "x": n(1)}, G.assign("g", n(3)), {"k": "spawn", "body": [probe("_a"), rd("g")]}, rd("_a"))
